@@ -1,6 +1,6 @@
 (* C05 -- audited obligations.  Models: coq/Grid/{QVec,IntLin,GridSem,GridRef}.v *)
 From Coq Require Import List ZArith QArith Qabs Bool.
-Require Import PPLV.Grid.QVec PPLV.Grid.IntLin PPLV.Grid.GridSem PPLV.Grid.GridRef PPLV.Grid.GridFreq PPLV.Grid.GridOps2 PPLV.Grid.GridOpsSpec.
+Require Import PPLV.Grid.QVec PPLV.Grid.IntLin PPLV.Grid.GridSem PPLV.Grid.GridRef PPLV.Grid.GridFreq PPLV.Grid.GridOps2 PPLV.Grid.GridOpsSpec PPLV.Grid.GridOpsSpec2.
 Import ListNotations.
 Local Open Scope Q_scope.
 
@@ -105,6 +105,33 @@ Theorem time_elapse_exact : forall n G1 G2 x,
   (exists q, in_qgens n G2 q) /\
   (exists p z, in_qgens n G1 p /\ zcomb n (in_qgens n G2) z /\ peq n x (fun i => p i + z i)).
 Proof. exact time_elapse_spec. Qed.
+
+(* affine image x_k := (a.x + b)/d and its modular generalisation x_k := (a.x + b)/d + m Z *)
+Theorem affine_image_exact : forall n k a b d G x', d <> 0%Z -> (length a <= n)%nat ->
+ (in_qgens n (affine_image k a b d G) x' <->
+  exists x, in_qgens n G x /\ peq n x' (upd x k (expr_val a b x / inject_Z d))).
+Proof. exact affine_image_spec. Qed.
+Theorem generalized_affine_image_exact : forall n k a b d m G x', d <> 0%Z -> (length a <= n)%nat ->
+ (in_qgens n (gen_image k a b d m G) x' <->
+  exists x (z : Z), in_qgens n G x /\
+    peq n x' (upd x k (expr_val a b x / inject_Z d + inject_Z z * inject_Z m))).
+Proof. exact gen_image_spec. Qed.
+(* generalized affine image / preimage with an EXPRESSION on the left: the result is exactly the image (preimage) of
+   the grid under the documented transfer relation  lhs(x') = rhs(x) (mod m),  x' = x off the variables of lhs *)
+Theorem generalized_affine_image_lhs_exact : forall n la lb ra rb m G G', length ra = n -> length la = n ->
+  gen_image_lhs n la lb ra rb m G = Ans G' ->
+  forall x', in_qgens n G' x' <->
+    exists x, in_qgens n G x /\
+      (forall i, (i < n)%nat -> nth i la 0%Z = 0%Z -> x' i == x i) /\
+      exists z : Z, expr_val la lb x' == expr_val ra rb x + inject_Z z * inject_Z m.
+Proof. exact gen_image_lhs_spec. Qed.
+Theorem generalized_affine_preimage_lhs_exact : forall n la lb ra rb m G G', length ra = n -> length la = n ->
+  gen_preimage_lhs n la lb ra rb m G = Ans G' ->
+  forall x, in_qgens n G' x <->
+    exists x', in_qgens n G x' /\
+      (forall i, (i < n)%nat -> nth i la 0%Z = 0%Z -> x' i == x i) /\
+      exists z : Z, expr_val la lb x' == expr_val ra rb x + inject_Z z * inject_Z m.
+Proof. exact gen_preimage_lhs_spec. Qed.
 
 (* ---------- stated, NOT proved (kept as Props; nothing depends on them) ---------- *)
 (* grid_incl_sound / grid_equiv_sound / grid_dd_check_sound are the proved halves of these: *)
